@@ -22,6 +22,9 @@ from . import session
 from . import C14 as base
 
 LEVEL = "other"
+IMPORTS = [
+    ("C17", ("C17.counting", "C17.A"), "the editor's character units are `char_count` / `char_byte_index`, which must count scalars"),
+]
 
 ALLOWED = {
     'Char': [r'E.insert(typed)'],
